@@ -124,12 +124,52 @@ func parseSingleConstraint(c string) ([]*constraint, error) {
 	return []*constraint{{operator: "=", version: c}}, nil
 }
 
-// parseCaretRange handles caret ranges (^1.2.3)
+// partialBase completes a caret or tilde base that leaves out the patch or the minor and
+// patch components ("1.2", "1") with zeros, as node-semver does, and reports how many
+// components were given.
+func partialBase(version string) (string, int) {
+	parts := strings.Split(strings.TrimPrefix(version, "v"), ".")
+	if len(parts) >= 3 {
+		return version, 3
+	}
+	for _, p := range parts {
+		if p == "" {
+			return version, 3
+		}
+		for _, r := range p {
+			if r < '0' || r > '9' {
+				return version, 3
+			}
+		}
+	}
+	given := len(parts)
+	for len(parts) < 3 {
+		parts = append(parts, "0")
+	}
+	return strings.Join(parts, "."), given
+}
+
+// parseCaretRange handles caret ranges (^1.2.3, ^1.2, ^1)
 func parseCaretRange(version string) ([]*constraint, error) {
+	version, given := partialBase(version)
 	e := &Ecosystem{}
 	v, err := e.NewVersion(version)
 	if err != nil {
 		return nil, err
+	}
+
+	// Partial bases: ^1 means >=1.0.0 <2.0.0-0 (also for ^0), ^0.2 means >=0.2.0 <0.3.0-0
+	if given == 1 {
+		return []*constraint{
+			{operator: ">=", version: v.normalize()},
+			{operator: "<", version: fmt.Sprintf("%d.0.0-0", v.major+1)},
+		}, nil
+	}
+	if given == 2 && v.major == 0 {
+		return []*constraint{
+			{operator: ">=", version: v.normalize()},
+			{operator: "<", version: fmt.Sprintf("0.%d.0-0", v.minor+1)},
+		}, nil
 	}
 
 	// Special rules for caret ranges with zero versions
@@ -155,12 +195,21 @@ func parseCaretRange(version string) ([]*constraint, error) {
 	}, nil
 }
 
-// parseTildeRange handles tilde ranges (~1.2.3)
+// parseTildeRange handles tilde ranges (~1.2.3, ~1.2, ~1)
 func parseTildeRange(version string) ([]*constraint, error) {
+	version, given := partialBase(version)
 	e := &Ecosystem{}
 	v, err := e.NewVersion(version)
 	if err != nil {
 		return nil, err
+	}
+
+	// ~1 means >=1.0.0 <2.0.0-0
+	if given == 1 {
+		return []*constraint{
+			{operator: ">=", version: v.normalize()},
+			{operator: "<", version: fmt.Sprintf("%d.0.0-0", v.major+1)},
+		}, nil
 	}
 
 	// ~1.2.3 means >=1.2.3 <1.3.0-0 (excludes prereleases from next minor)
